@@ -43,6 +43,7 @@ const (
 	kindDescribeGroups
 	kindListOffsets
 	kindCreateTopics
+	kindApiVersions // a user-issued ApiVersions request: answered on the pipelined path, not by the connection handshake
 	nKinds
 )
 
@@ -243,6 +244,11 @@ func buildReq(c callPlan) kmsg.Request {
 		rt.Partitions = append(rt.Partitions, rp)
 		r.Topics = append(r.Topics, rt)
 		return r
+	case kindApiVersions:
+		r := kmsg.NewPtrApiVersionsRequest()
+		r.ClientSoftwareName = c.Token
+		r.ClientSoftwareVersion = "1.0"
+		return r
 	default:
 		r := kmsg.NewPtrCreateTopicsRequest()
 		r.TimeoutMillis = c.Timeout
@@ -257,7 +263,7 @@ func buildReq(c callPlan) kmsg.Request {
 
 // tokenOfRequest extracts the token from a recorded request frame ("" if none).
 func tokenOfRequest(f *sb.Frame) string {
-	if f.Key == 18 || f.BadVersion || f.Malformed != "" {
+	if f.BadVersion || f.Malformed != "" {
 		return ""
 	}
 	req, err := sb.ParseRequest(f)
@@ -265,6 +271,10 @@ func tokenOfRequest(f *sb.Frame) string {
 		return ""
 	}
 	switch r := req.(type) {
+	case *kmsg.ApiVersionsRequest:
+		if strings.HasPrefix(r.ClientSoftwareName, "tok-") { // the client's own handshake carries its software name
+			return r.ClientSoftwareName
+		}
 	case *kmsg.MetadataRequest:
 		if len(r.Topics) == 1 && r.Topics[0].Topic != nil {
 			return *r.Topics[0].Topic
@@ -358,6 +368,22 @@ func correctReply(f *sb.Frame, throttle int32, plain bool) []byte {
 			l.Topics = append(l.Topics, lt)
 		}
 		resp = l
+	case *kmsg.ApiVersionsRequest:
+		a := kmsg.NewPtrApiVersionsResponse()
+		for _, k := range []int16{0, 1, 3, 18} {
+			ak := kmsg.NewApiVersionsResponseApiKey()
+			ak.ApiKey, ak.MinVersion, ak.MaxVersion = k, 0, kmsg.RequestForKey(k).MaxVersion()
+			a.ApiKeys = append(a.ApiKeys, ak)
+		}
+		if f.Version >= 3 && strings.HasPrefix(r.ClientSoftwareName, "tok-") {
+			sf := kmsg.NewApiVersionsResponseSupportedFeature()
+			sf.Name, sf.MinVersion, sf.MaxVersion = r.ClientSoftwareName, 0, 1
+			a.SupportedFeatures = append(a.SupportedFeatures, sf)
+		}
+		if plain {
+			a.FinalizedFeaturesEpoch = 0
+		}
+		resp = a
 	case *kmsg.CreateTopicsRequest:
 		c := kmsg.NewPtrCreateTopicsResponse()
 		for _, t := range r.Topics {
@@ -401,6 +427,10 @@ func tokenOfResponse(r kmsg.Response) string {
 	case *kmsg.CreateTopicsResponse:
 		if len(t.Topics) == 1 {
 			return t.Topics[0].Topic
+		}
+	case *kmsg.ApiVersionsResponse:
+		if len(t.SupportedFeatures) == 1 {
+			return t.SupportedFeatures[0].Name
 		}
 	}
 	return ""
